@@ -687,6 +687,30 @@ impl<K: Hash + Eq, V, KH: KeyHasher<K>, FH: BuildHasher, RH: BuildHasher, WH: Bu
     }
 }
 
+/// Verification hooks (feature `verif-hooks`): read-only views of the parts.
+#[cfg(feature = "verif-hooks")]
+impl<K: Hash, V, KH, FH, RH, WH> WTinyLFUCache<K, V, KH, FH, RH, WH> {
+    /// The window LRU.
+    pub fn verif_window(&self) -> &LRUCache<K, V, WH> {
+        &self.lru
+    }
+
+    /// The segmented main cache.
+    pub fn verif_main(&self) -> &SegmentedCache<K, V, FH, RH> {
+        &self.slru
+    }
+
+    /// The frequency estimator.
+    pub fn verif_estimator(&self) -> &TinyLFU<K, KH> {
+        &self.tinylfu
+    }
+
+    /// The frequency estimator (mutable; used to install reproducible sketch seeds).
+    pub fn verif_estimator_mut(&mut self) -> &mut TinyLFU<K, KH> {
+        &mut self.tinylfu
+    }
+}
+
 impl<
         K: Hash + Eq + Clone,
         V: Clone,
